@@ -1,6 +1,6 @@
 (* One entry point for the correspondence check: numeric opcode + wire value. *)
 From WS Require Import Base.Py.
-From WS Require Folding.Model TP.Model Evaluate.Model.
+From WS Require Folding.Model TP.Model Evaluate.Model Puddle.Model Separator.Model.
 
 Definition dispatch (op : Z) (j : J) : J :=
   match op with
@@ -12,5 +12,8 @@ Definition dispatch (op : Z) (j : J) : J :=
   | 501 => Evaluate.Model.run_evaluate j
   | 502 => Evaluate.Model.run_class_labels j
   | 1201 => Evaluate.Model.run_summary j
+  | 1101 => Puddle.Model.run_segment j
+  | 1102 => Puddle.Model.run_history j
+  | 801 => Separator.Model.run_separator j
   | _ => j_bad
   end%Z.
